@@ -40,9 +40,9 @@ def main(argv=None):
             res = mod.replay(a.replay)
         else:
             res = mod.run(a.tier, a.seed)
-    except Exception:
+    except Exception as ex:
         traceback.print_exc(file=sys.__stderr__)
-        print(f"MACHINERY-FAILURE property={prop}", file=out, flush=True)
+        print(f"MACHINERY-FAILURE property={prop} {type(ex).__name__}: {str(ex)[:300]!r}", file=out, flush=True)
         return 2
     wall = time.time() - t0
     known = findings.known_for(prop)
